@@ -77,6 +77,33 @@ def design_buffer(tier, seed):
     return {"states": states, "transitions": trans, "design": {"BufferInput.tla": runs}}
 
 
+def design_analyze(tier, seed):
+    """design-level model checking of spec/Analyze.tla against PegDen over all small grammars (no code involved)"""
+    import re
+    import shutil
+    states = trans = 0
+    runs = []
+    grid = [("FALSE", 2), ("TRUE", 2)] if tier == "quick" else [("FALSE", 3), ("TRUE", 3)]
+    for (two, maxlen) in grid:
+        d = tempfile.mkdtemp(prefix="mcana", dir=vlib.CACHE)
+        cfg = os.path.join(d, "MC.cfg")
+        # VisitAll = TRUE: the sor loop as it is in the tree since the fix (the pinned tree's loop is VisitAll = FALSE)
+        open(cfg, "w").write("SPECIFICATION Spec\nCONSTANTS VisitAll = TRUE TwoRules = %s MaxLen = %d\nINVARIANT Sound\nCHECK_DEADLOCK FALSE\n" % (two, maxlen))
+        rc, txt = vlib.run(["java", "-XX:+UseParallelGC", "-Xss64m", "-cp", vlib.TLC_JAR, "tlc2.TLC", "-workers", "16", "-metadir", os.path.join(d, "md"),
+                            "-config", cfg, "MC_Analyze.tla"], 3000, cwd=vlib.SPEC)
+        shutil.rmtree(d, ignore_errors=True)
+        m = re.search(r"(\d+) states generated, (\d+) distinct states found", txt)
+        if rc != 0 or not m:
+            if "is violated" in txt:
+                return {"verdicts": [{"p": "C11", "why": "design-level: the analysis model certifies a looping grammar (TwoRules=%s)" % two,
+                                      "rule": "Analyze.tla", "a": txt[-2500:], "b": 0}], "states": states, "transitions": trans}
+            raise Broken("TLC failed on MC_Analyze.tla\n" + txt[-1500:])
+        trans += int(m.group(1))
+        states += int(m.group(2))
+        runs.append({"TwoRules": two, "MaxLen": maxlen, "grammars": int(m.group(2))})
+    return {"states": states, "transitions": trans, "design": {"MC_Analyze.tla": runs}}
+
+
 PROPS = {
     "C09": {
         "families": ["conv"],
@@ -182,6 +209,21 @@ PROPS = {
         "rule": "cases = grammar x input x input class / chunk / maximum / reader schedule; non-trivial = runs through a class other "
                 "than the plain memory input",
         "note": "mmap, stdio and argv plumbing are exercised as trace producers, not modelled",
+    },
+    "C11": {
+        "families": ["ana"],
+        "extra": design_analyze,
+        "must_count": ["ana", "anacert", "analoop", "cases"],
+        "nontrivial_key": "anacert",
+        "level": "for every corpus grammar the real analyze< G >() is called and its verdict recorded; every input up to the bound is "
+                 "then parsed by the real code under a fuel limit (events and nesting) and evaluated by Den, which reports re-entry "
+                 "of an open (rule, position) and iterations that match the empty string; TLC requires: zero problems => no run cut "
+                 "by the fuel and no no-progress verdict from Den.  The corpus contains left recursion through every combinator "
+                 "(direct, behind nullable prefixes, in later alternatives, indirect), nullable bodies under every repetition, and "
+                 "seeded random grammars, terminating or not.  Design level: Analyze.tla transcribes analyze_traits and work(); TLC checks "
+                 "over all one-rule grammars with bodies of depth <= 2 and all two-rule grammars with bodies of depth <= 1 (operators "
+                 "seq sor opt star plus at not_at) that zero problems implies no no-progress verdict of Den on any input to the bound",
+        "rule": "cases = grammar x input; non-trivial = runs of grammars the analysis certified (zero problems)",
     },
     "C12": {
         "families": ["tree"],
